@@ -490,7 +490,7 @@ func (w *World) onConfApplied(n *node, idx uint64, cs *pb.ConfState, next model.
 			// (a voter leaving a set of one or two voters: the remaining members
 			// may need the departed voter for their stale quorum, and it may
 			// refuse - README "use three or more nodes")
-			if len(set) == 2 || len(set) == 1 {
+			if len(set) == 2 {
 				for _, id := range set {
 					if !got.V[id] {
 						m.twoVoterExc = true
@@ -694,11 +694,20 @@ func (w *World) onSelfDeliver(n *node, msg *pb.Message, meta *msgMeta) {
 			w.Stats["self-votes-delivered"]++
 		}
 	case pb.MsgStorageAppendResp:
+		if msg.GetSnapshot() != nil {
+			w.Stats["append-acks-with-snapshot"]++
+			if msg.GetTerm() < n.st.Term {
+				w.Stats["stale-append-acks-with-snapshot"]++
+			}
+		}
 		if msg.GetIndex() != 0 {
 			// the acknowledged entries must be on disk (the harness wrote them);
 			// count stale/ABA acknowledgements for coverage
 			if msg.GetTerm() < n.st.Term {
 				w.Stats["stale-append-acks"]++
+				if msg.GetSnapshot() != nil {
+					w.Stats["stale-append-acks-with-snapshot-and-entries"]++
+				}
 			}
 			if t, ok := n.shadowAt(msg.GetIndex()); ok && t.Term != msg.GetLogTerm() {
 				w.Stats["aba-append-acks"]++
